@@ -383,6 +383,33 @@ def _run_case(ck, desc):
                     break
                 ck.count("batches_as_views_of_wider_arrays")
             judge_events(ck, desc)
+        if kind == "records" and len(desc["sats"]) >= 1:
+            # the caller relabels ITS result (the docstring calls the fields k_o, k_w, k_g; the helper's table gets
+            # other column names; values are scaled in place): the next call is a new call
+            r1_ = relative_permeabilities(_records(desc["sats"], desc.get("order", 0)), params)
+            keep_ = {n_: np.array(r1_[n_], dtype=float, copy=True) for n_ in NAMES}
+            judge_events(ck, desc)  # (the monitor reads the recorded result by field name: before the caller renames them)
+            try:
+                r1_.dtype.names = ("k_o", "k_w", "k_g")
+                r1_["k_o"] *= 0.5
+            except Exception:  # noqa: BLE001
+                ck.count("result_fields_could_not_be_relabelled")
+            try:
+                r2_ = relative_permeabilities(_records(desc["sats"], desc.get("order", 0)), params)
+                if any(not np.array_equal(np.asarray(r2_[n_], dtype=float), keep_[n_], equal_nan=True) for n_ in NAMES):
+                    ck.violation("repeat-call-same-result", {"after": "the caller relabelled and rescaled the first result"}, desc)
+                ck.count("calls_after_the_caller_relabelled_a_result")
+            except Exception as e:  # noqa: BLE001
+                ck.violation("admissible-input-accepted", {"after": "the caller relabelled the fields of an earlier result (res.dtype.names = ...)", "raised": repr(e)[:160]}, desc)
+            if float(desc["params"][4]) <= 0.5:
+                try:
+                    t1_ = relative_permeabilities_twophase(params, float(desc["params"][4]))
+                    t1_.columns = [str(c_).upper() for c_ in t1_.columns]
+                    t1_.iloc[:, -1] = -1.0
+                    relative_permeabilities_twophase(params, float(desc["params"][4]))["kro"]
+                except Exception as e:  # noqa: BLE001
+                    ck.violation("admissible-input-accepted", {"through": "relative_permeabilities_twophase", "after": "the caller renamed the columns of an earlier table", "raised": repr(e)[:160]}, desc)
+            judge_events(ck, desc)
         if kind == "records":
             # a batch in which nothing is left after the caller's own selection (cells with gas above
             # critical: none) holds no inadmissible record: accepted, and nothing comes back
